@@ -19,11 +19,9 @@
   * `simPaths_sound` — every path of `simPaths` replays through the tape-driven interpreter `simRun` (the literal
     model of `Simulator.simulate`) to the listed state, consuming exactly the listed tape.
   * `simPaths_strict` — when the strict enumeration succeeds, the executable's enumeration returns the same list.
-  * `sampler_params_agree` — for every family except TruncNormal the scipy call coded in `sample` is the documented
-    parameterisation; `sampler_support_agree` — and its support is the declared `get_support`.
-  * `sampler_params_truncnormal_counterexample`, `truncnormal_spec_support`, `truncnormal_code_support`,
-    `truncnormal_support_agree_iff` — `TruncNormal.sample` passes raw bounds: the coded call has support
-    `[μ+σa, μ+σb]`, the documented one `[a, b]`; they coincide iff μ = 0 and σ = 1.
+  * `sampler_params_agree` — for EVERY family (TruncNormal included, σ² ≠ 0) the scipy call coded in `sample` is the
+    documented parameterisation; `sampler_support_agree` — and, whenever its arguments are rational, its support is
+    the declared `get_support`; `truncnormal_support` — TruncNormal(μ, s², a, b), s > 0: support exactly `[a, b]`.
 
   NOT covered: IEEE rounding (values are `Rat`), scipy / random internals (the law of a source is taken from its
   documentation), continuous draws inside `sim_eq_sem` (their samplers are covered by the sampler theorems only).
@@ -1240,24 +1238,19 @@ theorem not_tmp_of_head {x : String} {c : Char} {r : List Char} (hx : x.toList =
 
 /-! ### samplers -/
 
-/-- For every family except `TruncNormal` the scipy call made by `sample` is the documented
-    parameterisation of the law the analysis uses. -/
-theorem sampler_params_agree (fam : String) (ps : List Rat) (h : fam ≠ "TruncNormal") :
+/-- For EVERY family the scipy call made by `sample` is the documented parameterisation of the law the
+    analysis uses (`TruncNormal` included, since the bounds are standardised; for it σ² ≠ 0 is needed: the
+    code divides by σ and raises otherwise, while the documented call is still written down). -/
+theorem sampler_params_agree (fam : String) (ps : List Rat)
+    (hσ : fam = "TruncNormal" → ∀ mu s2 a b, ps = [mu, s2, a, b] → s2 ≠ 0) :
     samplerCall fam ps = samplerSpecCall fam ps := by
   unfold samplerCall samplerSpecCall
   split <;> simp_all
 
-/-- non-vacuity: the statement is about calls that exist -/
-example : samplerCall "Gamma" [2, 1/2] = samplerSpecCall "Gamma" [2, 1/2] ∧ (samplerCall "Gamma" [2, 1/2]).isSome := by
-  decide +kernel
-
-/-- `TruncNormal.sample` passes the raw bounds: for μ = 0, σ² = 4, [a, b] = [−1, 1] the call differs from the
-    documented one, and the sampled law lives on [−2, 2] instead of the declared [−1, 1]. -/
-theorem sampler_params_truncnormal_counterexample :
-    samplerCall "TruncNormal" [0, 4, -1, 1] ≠ samplerSpecCall "TruncNormal" [0, 4, -1, 1] ∧
-    (samplerCall "TruncNormal" [0, 4, -1, 1]).bind ScipyCall.support = some (some (-2), some 2) ∧
-    (samplerSpecCall "TruncNormal" [0, 4, -1, 1]).bind ScipyCall.support = some (some (-1), some 1) ∧
-    declaredSupport "TruncNormal" [0, 4, -1, 1] = some (some (-1), some 1) := by
+/-- non-vacuity: the statement is about calls that exist, the TruncNormal one included -/
+example : samplerCall "Gamma" [2, 1/2] = samplerSpecCall "Gamma" [2, 1/2] ∧ (samplerCall "Gamma" [2, 1/2]).isSome ∧
+    samplerCall "TruncNormal" [0, 4, -1, 1] = samplerSpecCall "TruncNormal" [0, 4, -1, 1] ∧
+    (samplerCall "TruncNormal" [0, 4, -1, 1]).isSome := by
   decide +kernel
 
 theorem ratSqrt_mul_self (s : Rat) (hs : 0 ≤ s) : ratSqrt? (s * s) = some s := by
@@ -1276,48 +1269,22 @@ theorem ratSqrt_mul_self (s : Rat) (hs : 0 ≤ s) : ratSqrt? (s * s) = some s :=
     exact_mod_cast congrArg (fun z : Int => (z : Rat)) this
   rw [this, Rat.num_div_den]
 
-/-- the documented parameterisation has exactly the declared support `[a, b]` … -/
-theorem truncnormal_spec_support (mu s a b : Rat) (hs : 0 < s) :
-    (samplerSpecCall "TruncNormal" [mu, s * s, a, b]).bind ScipyCall.support = some (some a, some b) := by
+/-- `TruncNormal(μ, σ², a, b).sample` with σ > 0 draws from a law whose support is exactly the declared `[a, b]`
+    (stated for σ² = s·s so that the standard deviation is rational). -/
+theorem truncnormal_support (mu s a b : Rat) (hs : 0 < s) :
+    (samplerCall "TruncNormal" [mu, s * s, a, b]).bind ScipyCall.support = some (some a, some b) := by
   have hsq := ratSqrt_mul_self s hs.le
   have hne : s ≠ 0 := hs.ne'
-  simp [samplerSpecCall, ScipyCall.support, SArg.toRat?, hsq, hne, Option.bind]
+  simp [samplerCall, ScipyCall.support, SArg.toRat?, hsq, hne, Option.bind]
   constructor <;> field_simp <;> ring
 
-/-- … whereas the coded one has support `[μ + σ a, μ + σ b]`. -/
-theorem truncnormal_code_support (mu s a b : Rat) (hs : 0 < s) :
-    (samplerCall "TruncNormal" [mu, s * s, a, b]).bind ScipyCall.support =
-      some (some (mu + s * a), some (mu + s * b)) := by
-  have hsq := ratSqrt_mul_self s hs.le
-  simp [samplerCall, ScipyCall.support, SArg.toRat?, hsq, Option.bind]
-
-/-- The sampler of `TruncNormal(μ, σ², a, b)` (σ > 0, a < b) has the declared support iff μ = 0 and σ = 1. -/
-theorem truncnormal_support_agree_iff (mu s a b : Rat) (hs : 0 < s) (hab : a < b) :
-    (samplerCall "TruncNormal" [mu, s * s, a, b]).bind ScipyCall.support =
-      declaredSupport "TruncNormal" [mu, s * s, a, b] ↔ (mu = 0 ∧ s = 1) := by
-  rw [truncnormal_code_support mu s a b hs]
-  simp only [declaredSupport, Option.some.injEq, Prod.mk.injEq]
-  constructor
-  · rintro ⟨h1, h2⟩
-    have h3 : s * (b - a) = b - a := by linarith
-    have h4 : s = 1 := by
-      have hne : b - a ≠ 0 := sub_ne_zero.mpr hab.ne'
-      exact mul_right_cancel₀ hne (by rw [h3, one_mul])
-    subst h4
-    exact ⟨by linarith, rfl⟩
-  · rintro ⟨rfl, rfl⟩
-    simp
-
-/-- every other family: the support of the coded call (when its arguments are rational) is the declared one -/
-theorem sampler_support_agree (fam : String) (ps : List Rat) (h : fam ≠ "TruncNormal") (c : ScipyCall)
+/-- every family: the support of the coded call (whenever its arguments are rational) is the declared
+    `get_support` -/
+theorem sampler_support_agree (fam : String) (ps : List Rat) (c : ScipyCall)
     (hc : samplerCall fam ps = some c) (sup : Bound × Bound) (hsup : c.support = some sup) :
     declaredSupport fam ps = some sup := by
   unfold samplerCall at hc
   split at hc
-  all_goals first
-    | (exfalso; exact h rfl)
-    | (cases hc; done)
-    | skip
   case h_5 =>
     split at hc
     · cases hc
@@ -1331,12 +1298,25 @@ theorem sampler_support_agree (fam : String) (ps : List Rat) (h : fam ≠ "Trunc
     cases hq : ratSqrt? s2 with
     | none => simp [hq] at hsup
     | some t => simpa [hq] using hsup
+  case h_9 =>
+    rename_i mu s2 a b
+    split at hc
+    · cases hc
+    · cases hc
+      simp only [declaredSupport]
+      cases hq : ratSqrt? s2 with
+      | none => simp [ScipyCall.support, SArg.toRat?, hq] at hsup
+      | some t =>
+        by_cases ht : t = 0
+        · simp [ScipyCall.support, SArg.toRat?, hq, ht] at hsup
+        · simp [ScipyCall.support, SArg.toRat?, hq, ht] at hsup
+          rw [← hsup]
+          congr 2 <;> congr 1 <;> field_simp <;> ring
+  case h_10 => cases hc
   all_goals
     cases hc
     simp [ScipyCall.support, SArg.toRat?] at hsup
     simp [declaredSupport, ← hsup]
-
-
 
 /-- names the parser's `get_unique_var` may produce start with an underscore -/
 def underscoreInitial (x : String) : Prop := x.toList.head? = some '_'
@@ -1778,12 +1758,20 @@ example : ∃ D p, simPaths true defaultTmp exP 2 [] = .ok D ∧ simPaths false 
   obtain ⟨p, hp⟩ := List.exists_mem_of_length_pos (l := D) (by omega)
   exact ⟨D, p, hD, simPaths_strict _ _ _ _ hD, hp, simPaths_sound _ _ _ _ _ hD hp⟩
 
-/-- non-vacuity of the TruncNormal characterisation and of `sampler_support_agree` -/
-example : (0 : Rat) < 2 ∧ (-1 : Rat) < 1 ∧
-    (samplerCall "TruncNormal" [0, 2 * 2, -1, 1]).bind ScipyCall.support ≠ declaredSupport "TruncNormal" [0, 2 * 2, -1, 1] := by
-  refine ⟨by norm_num, by norm_num, ?_⟩
-  rw [Ne, truncnormal_support_agree_iff 0 2 (-1) 1 (by norm_num) (by norm_num)]
-  norm_num
+/-- non-vacuity of `truncnormal_support` / `sampler_support_agree` -/
+example : (0 : Rat) < 2 ∧
+    (samplerCall "TruncNormal" [0, 2 * 2, -1, 1]).bind ScipyCall.support = declaredSupport "TruncNormal" [0, 2 * 2, -1, 1] := by
+  refine ⟨by norm_num, ?_⟩
+  rw [truncnormal_support 0 2 (-1) 1 (by norm_num)]
+  rfl
+
+example : ∃ c sup, samplerCall "TruncNormal" [1, 9/4, 0, 6] = some c ∧ c.support = some sup ∧
+    declaredSupport "TruncNormal" [1, 9/4, 0, 6] = some sup := by
+  refine ⟨⟨"truncnorm", [.divSqrt (0 - 1) (9/4), .divSqrt (6 - 1) (9/4)], .q 1, .sqrt (9/4), 1⟩,
+    (some 0, some 6), ?_, ?_, ?_⟩
+  · decide +kernel
+  · decide +kernel
+  · decide +kernel
 
 example : ∃ c sup, samplerCall "Uniform" [-1, 3] = some c ∧ c.support = some sup ∧
     declaredSupport "Uniform" [-1, 3] = some sup := by
